@@ -586,7 +586,7 @@ def ob_process_segments():
         subsets = [list(c) for r in range(len(doms) + 1) for c in itertools.combinations(doms + [99], r)][:12]
         # the block contract abstracts the user-supplied lists to the set of their entries: also descending lists, lists with repeated entries, tuples and sets
         variants = [list(reversed(c)) + [c[0]] for c in subsets if len(c) >= 2][:5]
-        variants += [tuple(reversed(variants[0])), set(variants[0])] if variants else []
+        variants += [tuple(reversed(variants[0])), set(variants[0]), dict.fromkeys(variants[0], "label"), dict.fromkeys(variants[0]).keys(), frozenset(variants[0])] if variants else []
         for sw in [None] + subsets + variants:
             for seg in [None] + subsets[:6] + variants:
                 support, nm = _process_segments(g, None, seg, sw)
@@ -596,7 +596,7 @@ def ob_process_segments():
                     n += 1
                     if nm[e] != want_nm or bool(support[e]) != want_s:
                         return violated("_process_segments(%s, segments=%s, swapped=%s): element %d gets multiplier %d support %s" % (name, seg, sw, e, nm[e], support[e]),
-                                        witness={"grid": name, "segments": seg, "swapped_normals": sw}, signature="process_segments", replay={"confirmed": True})
+                                        witness={"grid": name, "segments": repr(seg), "swapped_normals": repr(sw)}, signature="process_segments", replay={"confirmed": True})
         # support_elements (index array, any order, repeated entries): support[e] <=> e listed
         rng = np.random.RandomState(5)
         for size in (0, 1, 3, g.number_of_elements):
